@@ -9,6 +9,7 @@ use core::mem::ManuallyDrop;
 pub fn f8_iter<const M: usize, const K: usize>() {
     unsafe {
         pool_reset(0);
+        super::f6::CHUNK_ALIGN_OVERRIDE = 16;
         let cur = build_list::<M, K>();
         let mut bump = ManuallyDrop::new(Bump::<M> {
             current_chunk_footer: Cell::new(cur),
